@@ -1,7 +1,7 @@
 (* C09 - Securities are independent.  Statements only. *)
 From Coq Require Import QArith Qcanon ZArith List Bool String.
 Require Import CGT.Model.Num CGT.Model.Ledger CGT.Model.Match CGT.Model.Agg CGT.Model.Report
-               CGT.Proofs.AggFacts CGT.Proofs.LedgerFacts.
+               CGT.Proofs.AggFacts CGT.Proofs.LedgerFacts CGT.Proofs.ReportAdd.
 Import ListNotations.
 
 (* The days of security s computed from the whole ledger are those computed from s's lines alone,
@@ -20,6 +20,23 @@ Theorem C09_other_securities_inert : forall P l l' s, (forall t, In t l' -> of_t
   eval_tick P (l ++ l') s = eval_tick P l s.
 Proof. exact eval_tick_other. Qed.
 
+(* The report of the whole is the combination of the securities' own reports: its disposals are, up to the order in which they are
+   listed, those each security yields from its own lines (none lost to the sort, none merged), and every tax year's total gain and
+   total loss are the sums over the securities of the gains and losses of that security's own disposals in that year. *)
+Theorem C09_disposals_combine : forall P l,
+  Permutation.Permutation (flat_map (fun s => tick_disposals P (filter (of_tick s) l) s) (tickers_of l))
+                          (sort_disposals (sec_disposals P (eval_all P l))).
+Proof.
+  intros P l. erewrite flat_map_ext; [apply sorted_disposals_perm|]. intros s. apply tick_disposals_proj.
+Qed.
+Theorem C09_year_totals_add : forall P cfg l R y, report_of P cfg None l = inr R -> In y (r_years R) ->
+  y_gain y = qsum (map (fun s => qsum (map gain_part (disposals_in P (y_year y) (tick_disposals P (filter (of_tick s) l) s)))) (tickers_of l)) /\
+  y_loss y = qsum (map (fun s => qsum (map loss_part (disposals_in P (y_year y) (tick_disposals P (filter (of_tick s) l) s)))) (tickers_of l)) /\
+  y_net y = (y_gain y - y_loss y)%Qc.
+Proof. exact year_totals_additive. Qed.
+
+Print Assumptions C09_disposals_combine.
+Print Assumptions C09_year_totals_add.
 Print Assumptions C09_projection_days.
 Print Assumptions C09_other_lines_inert.
 Print Assumptions C09_projection.
